@@ -2737,8 +2737,9 @@ func everyTypeIndexed(c *Ctx, rid string) {
 					if !strings.Contains(t, "[*]") {
 						continue // not about an element of the loops
 					}
-					if strings.Contains(t, "typeis(") || strings.Contains(t, "result1(") && strings.Contains(t, ".(") {
-						continue // the kind of value @type holds (one text or a list)
+					bare := strings.TrimLeft(t, "!(")
+					if strings.Contains(t, "typeis(") || strings.Contains(t, "result1(") && strings.Contains(t, ".(") || strings.HasPrefix(bare, "result1(") && strings.HasSuffix(strings.TrimRight(t, ")"), `["@type"]`) {
+						continue // the kind of value @type holds (one text or a list): a type switch or a comma-ok assertion on it
 					}
 					why = append(why, "only when "+t)
 				}
@@ -2763,7 +2764,7 @@ func everyTypeIndexed(c *Ctx, rid string) {
 // embedded-code fields of the profile model to the returned text there is nothing but those operations.
 func c08EmbeddedCodeWhole(c *Ctx) {
 	r, p := c.R, c.P
-	r.Rule("C08.B8", "embedded Rego is pasted whole: between the profile model and the generated text only template variables are substituted and lines are split, all kept", 2)
+	r.Rule("C08.B8", "embedded Rego is pasted whole: between the profile model and the generated text only template variables are substituted and lines are split, all kept", 1)
 	gen := p.Pkg("internal/generator")
 	if gen == nil {
 		r.Unknown("C08.B8", "package", "", "internal/generator not found")
